@@ -395,8 +395,47 @@ def gen_filter_alpha(rng):
     return s.encode()
 
 
+STRING_KEYS = {"topic", "rt", "ct", "rs", "sr", "cid", "user", "am", "w.topic", "w.rt", "w.ct"}
+
+
+def inject_nul(rng, pkt):
+    """put the null character (one 0x00 byte; forbidden in every UTF-8 string field, [MQTT-1.5.4-2], and in topic names and
+    filters, [MQTT-4.7.3-2]) into one string-valued field of the packet text"""
+    toks = pkt.split(" ")
+    cand = [i for i, t in enumerate(toks) if "=" in t and (t.split("=")[0] in STRING_KEYS or t.split("=")[0] in ("sub", "tf", "up", "w.up"))]
+    if not cand:
+        return pkt
+    i = rng.choice(cand)
+    k, v = toks[i].split("=", 1)
+
+    def poke(hexstr):          # 'x6162' -> 'x610062'
+        body = bytes.fromhex(hexstr[1:])
+        # only at a character boundary: the string stays valid UTF-8
+        spots = [i for i in range(len(body) + 1) if i == len(body) or (body[i] & 0xC0) != 0x80]
+        pos = rng.choice(spots)
+        return "x" + (body[:pos] + b"\x00" + body[pos:]).hex()
+    if k in ("up", "w.up"):
+        a, b = v.split(":", 1)
+        v = (poke(a) + ":" + b) if rng.chance(0.5) else (a + ":" + poke(b))
+    elif k == "sub":
+        parts = v.split(":")
+        parts[0] = poke(parts[0])
+        v = ":".join(parts)
+    else:
+        v = poke(v)
+    toks[i] = k + "=" + v
+    return " ".join(toks)
+
+
 def gen_validation_packet(rng):
     """a packet for the validators: valid shapes plus exactly the things the validators must catch"""
+    pkt = gen_validation_packet0(rng)
+    if rng.chance(0.12):
+        pkt = inject_nul(rng, pkt)
+    return pkt
+
+
+def gen_validation_packet0(rng):
     k = rng.choice(["publish", "publish", "subscribe", "subscribe", "unsubscribe", "disconnect", "puback", "connect"])
     if k == "publish":
         f = gen_publish_fields(rng, "", allow_over=True)
